@@ -26,6 +26,7 @@ type Event struct {
 	Seq  int
 	Extra []Value // values captured by closures passed to / spawned by the event (for uses())
 	ExtraT []types.Type
+	GW    int // guarded writes on the path so far (lock / unlock events)
 }
 
 type LockHeld struct {
@@ -80,6 +81,8 @@ type State struct {
 	dead   bool // path ended (panic proven unreachable, infeasible, ...)
 	ghostNote []string
 	opqDep string // the path branched on the unconstrained result of this un-contracted call
+	atUnlock *Snapshot // state when the first critical section of the path ended (linearisation point of atomic operations)
+	gwrites  int       // writes to lock-guarded fields so far on this path
 }
 
 func (s *State) top() *frame { return s.frames[len(s.frames)-1] }
@@ -94,6 +97,8 @@ func (s *State) clone() *State {
 		atLock: s.atLock,
 		seq:   s.seq,
 		opqDep: s.opqDep,
+		atUnlock: s.atUnlock,
+		gwrites: s.gwrites,
 	}
 	for k, v := range s.heap {
 		n.heap[k] = v
